@@ -644,6 +644,9 @@ fn run_imb(ctx: &mut Ctx, op: &str, t: &mut Toks) {
 }
 
 pub fn run_op(ctx: &mut Ctx, op: &str) {
+    if ctx.hang_limit_reached() {
+        return;
+    }
     let mut t = Toks(op.split_whitespace());
     match t.0.next() {
         Some("csr") => run_csr(ctx, op, &mut t),
